@@ -1,7 +1,12 @@
 (** Executable comparison used by the correspondence check of C15: the model
     (Sync.v, with the facts of Generated/SyncFacts.v) is run on the
     notification sequence the implementation processed and compared with what
-    the implementation reported after each of them. *)
+    the implementation reported after each of them.
+
+    Two kinds of difference: what the theorems of Properties/C15.v speak
+    about decides ([obs_diff]); the rest is only counted ([obs_drift]: a
+    handler's error flag, the synced-to timestamp, hashes stored outside
+    [lo, synced-to height], the birthday block). *)
 From stdpp Require Import gmap list numbers.
 From Coq Require Import ZArith NArith.
 From Verif Require Import Generated.SyncFacts Sync.Sync.
@@ -23,18 +28,29 @@ Definition headers_of (l : list seg) : gmap N Z :=
 
 (** What the harness did between two observations. *)
 Inductive cop :=
-| CNtfn (n : ntfn)                                  (* one notification through the wallet's handler *)
-| CStartup (backend : list seg)                     (* syncWithChain up to the rollback (observed at NotifyBlocks) *)
+| CNtfn (n : ntfn)                                  (* one notification through the wallet's handler / the dispatch switch *)
+| CNtfns (l : list ntfn)                            (* chain.FilteredBlockConnected: the block's relevant transactions,
+                                                       one addRelevantTx each inside ONE Update (the model's addRelevantTx
+                                                       never fails, so this is the sequence of RelevantTx notifications) *)
+| CStartup (first : bool) (backend : list seg) (loc : bmeta) (* one attempt of syncWithChain up to the rescan request (observed at
+                                                       NotifyBlocks, or - a failed attempt - when waitForSync starts the
+                                                       next one); [first] = no birthday block was stored when the backend
+                                                       connected; [loc] = what locateBirthdayBlock returns on that backend
+                                                       (used only with [first]) *)
+| CRescanProgress (backend : list seg) (height : Z) (* catchUpHashes *)
 | CRescanFinished (backend : list seg) (height : Z) (* catchUpHashes + SetChainSynced(true) *)
 | CReopen                                           (* stop, close, reopen: ChainSynced() = false *)
 | CSetSynced (b : bool)                             (* Wallet.SetChainSynced *)
-| CSetBirthday.                                     (* Manager.SetBirthdayBlock *)
+| CSetBirthday (b : bmeta).                         (* Manager.SetBirthdayBlock *)
 
 (** Implementation observation (canonical: sets without duplicates). *)
 Record iobs := {
-  o_err : bool;                          (* the handler's walletdb.Update returned an error *)
+  o_err : option bool;                   (* start-up attempt: it did not reach the rescan request;
+                                            notification through a hook: the walletdb.Update returned an error;
+                                            None: not observable (notification through the dispatch goroutine) *)
   o_synced : bmeta;                      (* Manager.SyncedTo() *)
   o_chain_synced : bool;                 (* Wallet.ChainSynced() *)
+  o_bday : option (Z * N);               (* Manager.BirthdayBlock: height, hash *)
   o_probes : list (Z * option N);        (* Manager.BlockHash(h) for probed heights *)
   o_mined : list (N * Z * N);            (* (txid, height, block hash) of confirmed records *)
   o_unmined : list N;                    (* unconfirmed records *)
@@ -42,7 +58,8 @@ Record iobs := {
 
 (** Observations are written by the driver as flat lists of integers (large
     record literals are slow to elaborate):
-      [err; h; hash; time; chain_synced; np; (height, hash+1 | 0)*np; nm; (txid, height, hash)*nm; nu; txid*nu]
+      [err (0, 1; 2 = not observable); h; hash; time; chain_synced; bday set; bday height; bday hash;
+       np; (height, hash+1 | 0)*np; nm; (txid, height, hash)*nm; nu; txid*nu]
     The empty list means "not observed after this event". *)
 Definition mk (h hash t : Z) : bmeta := {| m_height := h; m_hash := Z.to_N hash; m_time := t |}.
 Definition zbool (z : Z) : bool := negb (z =? 0).
@@ -78,13 +95,14 @@ Inductive decoded := DNone | DBad | DObs (o : iobs).
 Definition decode_obs (l : list Z) : decoded :=
   match l with
   | [] => DNone
-  | e :: h :: hash :: t :: cs :: np :: l1 =>
+  | e :: h :: hash :: t :: cs :: bs :: bhh :: bhash :: np :: l1 =>
     match dec_probes (Z.to_nat np) l1 with
     | Some (ps, nm :: l2) =>
       match dec_mined (Z.to_nat nm) l2 with
       | Some (ms, nu :: l3) =>
         if (length l3 =? Z.to_nat nu)%nat then
-          DObs {| o_err := zbool e; o_synced := mk h hash t; o_chain_synced := zbool cs;
+          DObs {| o_err := if e =? 2 then None else Some (zbool e); o_synced := mk h hash t; o_chain_synced := zbool cs;
+                  o_bday := if zbool bs then Some (bhh, Z.to_N bhash) else None;
                   o_probes := ps; o_mined := ms; o_unmined := map Z.to_N l3 |}
         else DBad
       | _ => DBad
@@ -99,6 +117,9 @@ Definition conn (h hash t : Z) : cop := CNtfn (NConnect (mk h hash t)).
 Definition disc (h hash t : Z) : cop := CNtfn (NDisconnect (mk h hash t)).
 Definition txm (t : Z) (cb : bool) (h hash tm : Z) : cop := CNtfn (NTx (Z.to_N t) cb (Some (mk h hash tm))).
 Definition txu (t : Z) : cop := CNtfn (NTx (Z.to_N t) false None).
+(** FilteredBlockConnected for block (h, hash, tm) with transactions [(txid, coinbase)]. *)
+Definition filt (h hash tm : Z) (txs : list (Z * bool)) : cop :=
+  CNtfns (map (fun t => NTx (Z.to_N t.1) t.2 (Some (mk h hash tm))) txs).
 Definition sg (n id0 t0 dt : Z) : seg := (Z.to_nat n, Z.to_N id0, t0, dt).
 
 Record scase := {
@@ -110,15 +131,30 @@ Record scase := {
 Definition step (hdr : gmap N Z) (o : cop) (w : wallet) : result :=
   match o with
   | CNtfn n => handle hdr n w
-  | CStartup c => sync_rollback (expand c) hdr w
+  | CNtfns l => run hdr l w
+  | CStartup first c loc => startup first (expand c) hdr loc w
+  | CRescanProgress c h => catch_up (expand c) hdr h w
   | CRescanFinished c h => rescan_finished (expand c) hdr h w
   | CReopen => ok (set_chain_synced false w)
   | CSetSynced b => ok (set_chain_synced b w)
-  | CSetBirthday => ok (set_birthday true w)
+  | CSetBirthday b => ok (set_bday b w)
   end.
 
-Definition bmeta_eqb (a b : bmeta) : bool :=
-  (m_height a =? m_height b) && (m_hash a =? m_hash b)%N && (m_time a =? m_time b).
+(** The lowest height from which the theorems of C15 speak about the
+    remembered hashes ([lo] of [consistent]): where the wallet started to
+    follow the chain - genesis for a new wallet, the located birthday height
+    after a first synchronisation - raised by the pruning of PutSyncedTo. *)
+Definition next_lo (o : cop) (w w' : wallet) (lo : Z) : Z :=
+  let lo1 := match o with
+             | CStartup true _ loc => if negb (birthday_set w) && birthday_set w' then m_height loc else lo
+             | _ => lo
+             end in
+  Z.max lo1 (m_height (synced w') - max_reorg_depth + 1).
+
+Definition is_startup (o : cop) : bool := match o with CStartup _ _ _ => true | _ => false end.
+
+Definition stamp_eqb (a b : bmeta) : bool :=
+  (m_height a =? m_height b) && (m_hash a =? m_hash b)%N.
 Definition optN_eqb (a b : option N) : bool :=
   match a, b with
   | None, None => true
@@ -131,55 +167,94 @@ Definition set_eqb {A} (eqb : A -> A -> bool) (a b : list A) : bool :=
   (length a =? length b)%nat &&
   forallb (fun x => existsb (eqb x) b) a && forallb (fun x => existsb (eqb x) a) b.
 
-(** First difference, as a code (0 = agree):
-    1 error flag, 2 synced-to, 3 ChainSynced, 4 stored hashes, 5 confirmed records, 6 unconfirmed records;
-    9 = the observation does not decode. *)
-Definition obs_diff (e : bool) (w : wallet) (o : iobs) : nat :=
-  if negb (Bool.eqb e (o_err o)) then 1%nat
-  else if negb (bmeta_eqb (synced w) (o_synced o)) then 2%nat
+Definition err_eqb (e : bool) (o : option bool) : bool :=
+  match o with None => true | Some x => Bool.eqb e x end.
+Definition probe_ok (w : wallet) (p : Z * option N) : bool := optN_eqb (hashes w !! p.1) p.2.
+Definition in_window (lo : Z) (w : wallet) (p : Z * option N) : bool :=
+  (lo <=? p.1) && (p.1 <=? m_height (synced w)).
+
+(** What decides (the observables the theorems of Properties/C15.v speak
+    about).  First difference, as a code (0 = agree):
+      1 a start-up attempt fails / succeeds ([sync_rollback]'s flag: theorems C15_startup_...),
+      2 synced-to height and hash, 3 ChainSynced,
+      4 the hash stored for a height from [lo] up to the synced-to height,
+      5 confirmed records, 6 unconfirmed records;
+      9 = the observation does not decode. *)
+Definition obs_diff (st : bool) (lo : Z) (e : bool) (w : wallet) (o : iobs) : nat :=
+  if st && negb (err_eqb e (o_err o)) then 1%nat
+  else if negb (stamp_eqb (synced w) (o_synced o)) then 2%nat
   else if negb (Bool.eqb (chain_synced w) (o_chain_synced o)) then 3%nat
-  else if negb (forallb (fun p => optN_eqb (hashes w !! p.1) p.2) (o_probes o)) then 4%nat
+  else if negb (forallb (fun p => negb (in_window lo w p) || probe_ok w p) (o_probes o)) then 4%nat
   else if negb (set_eqb rec3_eqb (map (fun r => (r_tx r, r_height r, r_hash r)) (mined w)) (o_mined o)) then 5%nat
   else if negb (set_eqb N.eqb (unmined w) (o_unmined o)) then 6%nat
   else 0%nat.
 
+(** What is only counted (model and implementation differ in something no
+    theorem of C15 depends on):
+      [a handler's error flag; the synced-to timestamp;
+       a hash stored outside [lo, synced-to height]; the birthday block]. *)
+Definition bday_ok (w : wallet) (o : iobs) : bool :=
+  match o_bday o with
+  | None => negb (birthday_set w)
+  | Some b => birthday_set w && (m_height (bday w) =? b.1) && (m_hash (bday w) =? b.2)%N
+  end.
+Definition b2n (b : bool) : nat := if b then 1%nat else 0%nat.
+Definition obs_drift (st : bool) (lo : Z) (e : bool) (w : wallet) (o : iobs) : list nat :=
+  [ b2n (negb st && negb (err_eqb e (o_err o)));
+    b2n (negb (m_time (synced w) =? m_time (o_synced o)));
+    b2n (negb (forallb (fun p => in_window lo w p || probe_ok w p) (o_probes o)));
+    b2n (negb (bday_ok w o)) ].
+Definition add_drift (a b : list nat) : list nat :=
+  match a, b with
+  | [a1; a2; a3; a4], [b1; b2; b3; b4] => [a1 + b1; a2 + b2; a3 + b3; a4 + b4]%nat
+  | _, _ => a
+  end.
+Definition no_drift : list nat := [0; 0; 0; 0]%nat.
+
 (** (event index, code) of the first event after which implementation and
-    model differ. *)
-Fixpoint first_diff (hdr : gmap N Z) (i : nat) (evs : list (cop * list Z)) (w : wallet) : option (nat * nat) :=
+    model differ, and the drift counted up to there. *)
+Fixpoint first_diff (hdr : gmap N Z) (i : nat) (evs : list (cop * list Z)) (lo : Z) (w : wallet) (d : list nat)
+  : option (nat * nat) * list nat :=
   match evs with
-  | [] => None
+  | [] => (None, d)
   | (o, ob) :: rest =>
     let '(w', e) := step hdr o w in
+    let lo' := next_lo o w w' lo in
     match decode_obs ob with
-    | DNone => first_diff hdr (S i) rest w'
-    | DBad => Some (i, 9%nat)
+    | DNone => first_diff hdr (S i) rest lo' w' d
+    | DBad => (Some (i, 9%nat), d)
     | DObs ob =>
-      match obs_diff e w' ob with
-      | O => first_diff hdr (S i) rest w'
-      | S c => Some (i, S c)
+      let d' := add_drift d (obs_drift (is_startup o) lo' e w' ob) in
+      match obs_diff (is_startup o) lo' e w' ob with
+      | O => first_diff hdr (S i) rest lo' w' d'
+      | S c => (Some (i, S c), d')
       end
     end
   end.
 
 Definition init_wallet (c : scase) : wallet :=
   {| synced := sc_init c; hashes := {[ m_height (sc_init c) := m_hash (sc_init c) ]};
-     birthday_set := false; chain_synced := false; mined := []; unmined := [] |}.
+     birthday_set := false; bday := {| m_height := 0; m_hash := 0%N; m_time := 0 |};
+     chain_synced := false; mined := []; unmined := [] |}.
 
-Definition case_diff (c : scase) : option (nat * nat) :=
-  first_diff (headers_of (sc_headers c)) 0 (sc_events c) (init_wallet c).
+Definition case_eval (c : scase) : option (nat * nat) * list nat :=
+  first_diff (headers_of (sc_headers c)) 0 (sc_events c) (m_height (sc_init c)) (init_wallet c) no_drift.
+Definition case_diff (c : scase) : option (nat * nat) := (case_eval c).1.
 Definition case_ok (c : scase) : bool :=
   match case_diff c with None => true | Some _ => false end.
 
-Fixpoint failures_from (i : nat) (l : list scase) : list (nat * nat * nat) :=
+Fixpoint eval_from (i : nat) (l : list scase) : list (nat * nat * nat) * list nat :=
   match l with
-  | [] => []
+  | [] => ([], no_drift)
   | c :: l' =>
-    match case_diff c with
-    | None => failures_from (S i) l'
-    | Some (ev, code) => (i, ev, code) :: failures_from (S i) l'
-    end
+    let '(r, d) := case_eval c in
+    let '(fs, ds) := eval_from (S i) l' in
+    (match r with None => fs | Some (ev, code) => (i, ev, code) :: fs end, add_drift d ds)
   end.
 
-(** (case index, event index, code) of every case where implementation and model differ. *)
-Definition failures := failures_from 0.
+(** (case index, event index, code) of every case where implementation and
+    model differ in what decides; and the drift counts over all cases. *)
+Definition evaluate := eval_from 0.
+Definition failures (l : list scase) : list (nat * nat * nat) := (evaluate l).1.
+Definition drift (l : list scase) : list nat := (evaluate l).2.
 Definition mismatches (l : list scase) : list nat := map (fun x => x.1.1) (failures l).
